@@ -4,6 +4,7 @@
 From Coq Require Import List Arith ZArith Sorted.
 From GM Require Import Base.Res Base.StrItp Model.Itp Model.Topology Model.TopHeap
   Proofs.ItpSpec Proofs.TopologyGraph Proofs.TopHeapProofs Proofs.TopologyParse Proofs.TopologyExample Proofs.TopologyLoad.
+From GM Require Import Gen.ItpGen Proofs.ItpGenEq.
 Import ListNotations.
 
 (* Reading.  `file_denotes ls t` (Proofs/TopologyParse.v) says that the lines ls CARRY the topology t under any
@@ -100,6 +101,13 @@ Theorem C15_copy_independent : forall h m v m' h', view h m = Ok v -> mol_copy h
   (forall ws, (forall w, In w ws -> fst w < List.length h) -> view (stores ws h') m' = Ok v).
 Proof. exact copy_independent_both. Qed.
 Print Assumptions C15_copy_independent.
+
+(* the model is the source (DESIGN.md 4.6): Gen/ItpGen.v is re-translated from the text of ItpLine.parse_itp_line in
+   gaddlemaps/parsers/_itp_parse.py at every run (harness/pytrans_itp.py); for every line, what the source says now
+   IS the line parser the theorems of this file are about (blank / header / '#' / ';' / first ';' / final ';' / plain) *)
+Theorem C15_model_is_source_line : forall l : str, parse_itp_line_gen l = parse_itp_line l.
+Proof. exact parse_itp_line_gen_eq. Qed.
+Print Assumptions C15_model_is_source_line.
 
 (* non-vacuity of C15_parse_render: a concrete decorated text (gapped numbers 7, 12, 40; [ pairs ] before the
    atoms; a repeated [ atoms ]; '+12', '4_0'; a comment glued to the moleculetype fields) meets the hypotheses *)
